@@ -11,6 +11,8 @@ def run_valid(run, model, impl, cfg, n, rnd, oracle_fail, all_mism, label="valid
         if gen_json.depth(t) > 10:
             continue
         docs.append((t, text))
+    # texts whose strings are built in a scratch buffer left over from an earlier (duplicate) string of another length
+    docs += [(None, text) for text in gen_json.reuse_texts(rnd, max(30, n // 8))]
     lines = ["J 10 - " + hx(text) for _, text in docs]
     mism, mo, io = vlib.correspond(run, model, impl, lines, cfg, label)
     all_mism += mism
